@@ -15,7 +15,9 @@ use std::mem;
 
 verus! {
 
+//@keep-cfg statistics
 //@include _shared/registry_preamble_a.rs
+//@include _shared/statistics_items.rs
 //@item core/src/channel_end.rs enum ChannelEnd attr=derive(Clone,Copy)
 //@item broker/src/broker/channel.rs struct Channel
 //@item broker/src/broker/channel.rs enum ChannelEndState
@@ -84,6 +86,7 @@ impl BusListener {
 
 impl Broker {
     //@include _shared/registry_inv.rs
+    //@include _shared/statistics_specs.rs
     //@include _shared/chan_inv.rs
     //@include _shared/bl_inv.rs
     //@include _shared/remove_channel_end_contract.rs
@@ -179,7 +182,7 @@ impl Broker {
         &&& self.others_connected(id)
     }
 
-    //@fn broker/src/broker.rs Broker::shutdown_connection attr=verifier::loop_isolation(false)
+    //@fn broker/src/broker.rs Broker::shutdown_connection
         requires
             old(self).reg_inv(), old(self).chan_inv(), old(self).bl_inv(),
             old(self).chan_owners_connected(), old(self).bl_owners_connected(),
@@ -204,12 +207,15 @@ impl Broker {
             },
             // the tables are consistent again in the strong sense (every owner and subscriber is a connected client), so the
             // next request finds the invariant it relies on
+            // statistics: all five counters equal the sizes of their tables again
+            old(self).stat_ok() ==> final(self).stat_ok(),
             final(self).chan_inv(), final(self).bl_inv(), final(self).chan_owners_connected(), final(self).bl_owners_connected(),
             final(self).inv_objects(), final(self).inv_services(), final(self).inv_object_services(), final(self).inv_ownership(),
             final(self).inv_calls(), final(self).inv_callers(), final(self).inv_conns(), final(self).inv_subs(),
             final(self).reg_winv(), final(self).reg_inv(),
     //@ghost before `for bus_listener_cookie in conn.bus_listeners()`
         let ghost idv = *id;
+        let ghost ok0 = old(self).stat_ok();
         let ghost s0 = *self;
         proof {
             assert(s0.conns@ =~= old(self).conns@.remove(idv));
@@ -240,7 +246,7 @@ impl Broker {
             it0.seq().no_duplicates(), it0.seq().to_set() == conn.bus_listeners@,
             ord0 == it0.history(),
             forall|x: BusListenerCookie| #![trigger conn.bus_listeners@.contains(x)] conn.bus_listeners@.contains(x) <==> (ord0.contains(x) || in_rest(it0.seq(), it0.index(), x)),
-            !self.conns@.contains_key(idv), self.conns@.dom() =~= s0.conns@.dom(), state.abort_function_calls@ == old(state).abort_function_calls@, self.reg_winv(), self.no_orphans(), self.chan_inv(), self.bl_inv(), self.cov_bl(idv, &conn), self.cov_obj(idv, &conn), self.cov_ev(idv, &conn), self.cov_all(idv, &conn), self.cov_sub(idv, &conn), self.cov_chan(idv, &conn), self.others_connected(idv), self.own_chan(idv, &conn, Seq::empty(), Seq::empty()),
+            idv == *id, !self.conns@.contains_key(idv), self.conns@.dom() =~= s0.conns@.dom(), state.abort_function_calls@ == old(state).abort_function_calls@, ok0 ==> self.stat_objects_ok(), ok0 ==> self.stat_services_ok(), ok0 ==> self.stat_channels_ok(), ok0 ==> self.stat_listeners_ok(), ok0 ==> self.statistics.num_connections == self.conns@.len() + 1, self.reg_winv(), self.no_orphans(), self.chan_inv(), self.bl_inv(), self.cov_bl(idv, &conn), self.cov_obj(idv, &conn), self.cov_ev(idv, &conn), self.cov_all(idv, &conn), self.cov_sub(idv, &conn), self.cov_chan(idv, &conn), self.others_connected(idv), self.own_chan(idv, &conn, Seq::empty(), Seq::empty()),
             forall|c: BusListenerCookie| #![trigger self.bus_listeners@.contains_key(c)] self.bus_listeners@.contains_key(c) ==> !ord0.contains(c),
     //@ghost loop-start 0
         proof {
@@ -262,7 +268,7 @@ impl Broker {
             it1.seq().no_duplicates(), it1.seq().to_set() == conn.objects@,
             ord1 == it1.history(),
             forall|x: ObjectCookie| #![trigger conn.objects@.contains(x)] conn.objects@.contains(x) <==> (ord1.contains(x) || in_rest(it1.seq(), it1.index(), x)),
-            !self.conns@.contains_key(idv), self.conns@.dom() =~= s0.conns@.dom(), state.abort_function_calls@ == old(state).abort_function_calls@, self.reg_winv(), self.no_orphans(), self.chan_inv(), self.bl_inv(), self.cov_bl(idv, &conn), self.cov_obj(idv, &conn), self.cov_ev(idv, &conn), self.cov_all(idv, &conn), self.cov_sub(idv, &conn), self.cov_chan(idv, &conn), self.others_connected(idv), self.own_chan(idv, &conn, Seq::empty(), Seq::empty()), self.gone_bl(idv),
+            idv == *id, !self.conns@.contains_key(idv), self.conns@.dom() =~= s0.conns@.dom(), state.abort_function_calls@ == old(state).abort_function_calls@, ok0 ==> self.stat_objects_ok(), ok0 ==> self.stat_services_ok(), ok0 ==> self.stat_channels_ok(), ok0 ==> self.stat_listeners_ok(), ok0 ==> self.statistics.num_connections == self.conns@.len() + 1, self.reg_winv(), self.no_orphans(), self.chan_inv(), self.bl_inv(), self.cov_bl(idv, &conn), self.cov_obj(idv, &conn), self.cov_ev(idv, &conn), self.cov_all(idv, &conn), self.cov_sub(idv, &conn), self.cov_chan(idv, &conn), self.others_connected(idv), self.own_chan(idv, &conn, Seq::empty(), Seq::empty()), self.gone_bl(idv),
             forall|c: ObjectCookie| #![trigger self.obj_uuids@.contains_key(c)] self.obj_uuids@.contains_key(c) ==> !ord1.contains(c),
     //@ghost loop-start 1
         proof {
@@ -285,7 +291,7 @@ impl Broker {
             forall|c: ServiceCookie, e: u32| #![trigger conn.ev(c).contains(e)] conn.ev(c).contains(e) <==> it2.seq().contains((c, e)),
             ord2 == it2.history(),
             forall|c: ServiceCookie, e: u32| #![trigger conn.ev(c).contains(e)] conn.ev(c).contains(e) <==> (ord2.contains((c, e)) || in_rest(it2.seq(), it2.index(), (c, e))),
-            !self.conns@.contains_key(idv), self.conns@.dom() =~= s0.conns@.dom(), state.abort_function_calls@ == old(state).abort_function_calls@, self.reg_winv(), self.no_orphans(), self.chan_inv(), self.bl_inv(), self.cov_bl(idv, &conn), self.cov_obj(idv, &conn), self.cov_ev(idv, &conn), self.cov_all(idv, &conn), self.cov_sub(idv, &conn), self.cov_chan(idv, &conn), self.others_connected(idv), self.own_chan(idv, &conn, Seq::empty(), Seq::empty()), self.gone_bl(idv), self.gone_obj(idv),
+            idv == *id, !self.conns@.contains_key(idv), self.conns@.dom() =~= s0.conns@.dom(), state.abort_function_calls@ == old(state).abort_function_calls@, ok0 ==> self.stat_objects_ok(), ok0 ==> self.stat_services_ok(), ok0 ==> self.stat_channels_ok(), ok0 ==> self.stat_listeners_ok(), ok0 ==> self.statistics.num_connections == self.conns@.len() + 1, self.reg_winv(), self.no_orphans(), self.chan_inv(), self.bl_inv(), self.cov_bl(idv, &conn), self.cov_obj(idv, &conn), self.cov_ev(idv, &conn), self.cov_all(idv, &conn), self.cov_sub(idv, &conn), self.cov_chan(idv, &conn), self.others_connected(idv), self.own_chan(idv, &conn, Seq::empty(), Seq::empty()), self.gone_bl(idv), self.gone_obj(idv),
             forall|k: (ObjectUuid, ServiceUuid), e: u32| #![trigger self.svcs@[k].subs(e)] self.svcs@.contains_key(k)
                 && ord2.contains((self.svcs@[k].cookie, e)) ==> !self.svcs@[k].subs(e).contains(idv),
     //@ghost loop-start 2
@@ -307,7 +313,7 @@ impl Broker {
             it3.seq().no_duplicates(), it3.seq().to_set() == conn.all_events@,
             ord3 == it3.history(),
             forall|x: ServiceCookie| #![trigger conn.all_events@.contains(x)] conn.all_events@.contains(x) <==> (ord3.contains(x) || in_rest(it3.seq(), it3.index(), x)),
-            !self.conns@.contains_key(idv), self.conns@.dom() =~= s0.conns@.dom(), state.abort_function_calls@ == old(state).abort_function_calls@, self.reg_winv(), self.no_orphans(), self.chan_inv(), self.bl_inv(), self.cov_bl(idv, &conn), self.cov_obj(idv, &conn), self.cov_ev(idv, &conn), self.cov_all(idv, &conn), self.cov_sub(idv, &conn), self.cov_chan(idv, &conn), self.others_connected(idv), self.own_chan(idv, &conn, Seq::empty(), Seq::empty()), self.gone_bl(idv), self.gone_obj(idv), self.gone_ev(idv),
+            idv == *id, !self.conns@.contains_key(idv), self.conns@.dom() =~= s0.conns@.dom(), state.abort_function_calls@ == old(state).abort_function_calls@, ok0 ==> self.stat_objects_ok(), ok0 ==> self.stat_services_ok(), ok0 ==> self.stat_channels_ok(), ok0 ==> self.stat_listeners_ok(), ok0 ==> self.statistics.num_connections == self.conns@.len() + 1, self.reg_winv(), self.no_orphans(), self.chan_inv(), self.bl_inv(), self.cov_bl(idv, &conn), self.cov_obj(idv, &conn), self.cov_ev(idv, &conn), self.cov_all(idv, &conn), self.cov_sub(idv, &conn), self.cov_chan(idv, &conn), self.others_connected(idv), self.own_chan(idv, &conn, Seq::empty(), Seq::empty()), self.gone_bl(idv), self.gone_obj(idv), self.gone_ev(idv),
             forall|k: (ObjectUuid, ServiceUuid)| #![trigger self.svcs@[k]] self.svcs@.contains_key(k)
                 && ord3.contains(self.svcs@[k].cookie) ==> !self.svcs@[k].all_events@.contains(idv),
     //@ghost loop-start 3
@@ -330,7 +336,7 @@ impl Broker {
             it4.seq().no_duplicates(), it4.seq().to_set() == conn.subscriptions@,
             ord4 == it4.history(),
             forall|x: ServiceCookie| #![trigger conn.subscriptions@.contains(x)] conn.subscriptions@.contains(x) <==> (ord4.contains(x) || in_rest(it4.seq(), it4.index(), x)),
-            !self.conns@.contains_key(idv), self.conns@.dom() =~= s0.conns@.dom(), state.abort_function_calls@ == old(state).abort_function_calls@, self.reg_winv(), self.no_orphans(), self.chan_inv(), self.bl_inv(), self.cov_bl(idv, &conn), self.cov_obj(idv, &conn), self.cov_ev(idv, &conn), self.cov_all(idv, &conn), self.cov_sub(idv, &conn), self.cov_chan(idv, &conn), self.others_connected(idv), self.own_chan(idv, &conn, Seq::empty(), Seq::empty()), self.gone_bl(idv), self.gone_obj(idv), self.gone_ev(idv), self.gone_all(idv),
+            idv == *id, !self.conns@.contains_key(idv), self.conns@.dom() =~= s0.conns@.dom(), state.abort_function_calls@ == old(state).abort_function_calls@, ok0 ==> self.stat_objects_ok(), ok0 ==> self.stat_services_ok(), ok0 ==> self.stat_channels_ok(), ok0 ==> self.stat_listeners_ok(), ok0 ==> self.statistics.num_connections == self.conns@.len() + 1, self.reg_winv(), self.no_orphans(), self.chan_inv(), self.bl_inv(), self.cov_bl(idv, &conn), self.cov_obj(idv, &conn), self.cov_ev(idv, &conn), self.cov_all(idv, &conn), self.cov_sub(idv, &conn), self.cov_chan(idv, &conn), self.others_connected(idv), self.own_chan(idv, &conn, Seq::empty(), Seq::empty()), self.gone_bl(idv), self.gone_obj(idv), self.gone_ev(idv), self.gone_all(idv),
             forall|k: (ObjectUuid, ServiceUuid)| #![trigger self.svcs@[k]] self.svcs@.contains_key(k)
                 && ord4.contains(self.svcs@[k].cookie) ==> !self.svcs@[k].subscriptions@.contains(idv),
     //@ghost loop-start 4
@@ -353,7 +359,7 @@ impl Broker {
             it5.seq().no_duplicates(), it5.seq().to_set() == conn.senders@,
             ord5 == it5.history(),
             forall|x: ChannelCookie| #![trigger conn.senders@.contains(x)] conn.senders@.contains(x) <==> (ord5.contains(x) || in_rest(it5.seq(), it5.index(), x)),
-            !self.conns@.contains_key(idv), self.conns@.dom() =~= s0.conns@.dom(), state.abort_function_calls@ == old(state).abort_function_calls@, self.reg_winv(), self.no_orphans(), self.chan_inv(), self.bl_inv(), self.cov_bl(idv, &conn), self.cov_obj(idv, &conn), self.cov_ev(idv, &conn), self.cov_all(idv, &conn), self.cov_sub(idv, &conn), self.cov_chan(idv, &conn), self.others_connected(idv), self.own_chan(idv, &conn, ord5, Seq::empty()),
+            idv == *id, !self.conns@.contains_key(idv), self.conns@.dom() =~= s0.conns@.dom(), state.abort_function_calls@ == old(state).abort_function_calls@, ok0 ==> self.stat_objects_ok(), ok0 ==> self.stat_services_ok(), ok0 ==> self.stat_channels_ok(), ok0 ==> self.stat_listeners_ok(), ok0 ==> self.statistics.num_connections == self.conns@.len() + 1, self.reg_winv(), self.no_orphans(), self.chan_inv(), self.bl_inv(), self.cov_bl(idv, &conn), self.cov_obj(idv, &conn), self.cov_ev(idv, &conn), self.cov_all(idv, &conn), self.cov_sub(idv, &conn), self.cov_chan(idv, &conn), self.others_connected(idv), self.own_chan(idv, &conn, ord5, Seq::empty()),
             self.gone_bl(idv), self.gone_obj(idv), self.gone_ev(idv), self.gone_all(idv), self.gone_sub(idv),
             forall|c: ChannelCookie| #![trigger self.channels@[c]] self.channels@.contains_key(c) && ord5.contains(c) ==> !self.channels@[c].sender.claimed_by(idv.id()),
     //@ghost loop-start 5
@@ -376,7 +382,7 @@ impl Broker {
             it6.seq().no_duplicates(), it6.seq().to_set() == conn.receivers@,
             ord6 == it6.history(),
             forall|x: ChannelCookie| #![trigger conn.receivers@.contains(x)] conn.receivers@.contains(x) <==> (ord6.contains(x) || in_rest(it6.seq(), it6.index(), x)),
-            !self.conns@.contains_key(idv), self.conns@.dom() =~= s0.conns@.dom(), state.abort_function_calls@ == old(state).abort_function_calls@, self.reg_winv(), self.no_orphans(), self.chan_inv(), self.bl_inv(), self.cov_bl(idv, &conn), self.cov_obj(idv, &conn), self.cov_ev(idv, &conn), self.cov_all(idv, &conn), self.cov_sub(idv, &conn), self.cov_chan(idv, &conn), self.others_connected(idv), self.own_chan(idv, &conn, ord5, ord6),
+            idv == *id, !self.conns@.contains_key(idv), self.conns@.dom() =~= s0.conns@.dom(), state.abort_function_calls@ == old(state).abort_function_calls@, ok0 ==> self.stat_objects_ok(), ok0 ==> self.stat_services_ok(), ok0 ==> self.stat_channels_ok(), ok0 ==> self.stat_listeners_ok(), ok0 ==> self.statistics.num_connections == self.conns@.len() + 1, self.reg_winv(), self.no_orphans(), self.chan_inv(), self.bl_inv(), self.cov_bl(idv, &conn), self.cov_obj(idv, &conn), self.cov_ev(idv, &conn), self.cov_all(idv, &conn), self.cov_sub(idv, &conn), self.cov_chan(idv, &conn), self.others_connected(idv), self.own_chan(idv, &conn, ord5, ord6),
             self.gone_bl(idv), self.gone_obj(idv), self.gone_ev(idv), self.gone_all(idv), self.gone_sub(idv), self.gone_snd(idv),
             forall|c: ChannelCookie| #![trigger self.channels@[c]] self.channels@.contains_key(c) && ord6.contains(c) ==> !self.channels@[c].receiver.claimed_by(idv.id()),
     //@ghost loop-start 6
